@@ -18,7 +18,7 @@ class Prop(PropBase):
     explanation = ('Theorems C03_T0..T4 (Coq) over the kernel regenerated from split_strategy.hpp by kt.py; correspondence of the '
                    'extracted model against the real decoders on cloud boundaries and is_frame_begin flags')
     assumptions = ['azimuths on the wire are < 36000 (property quantifier)', 'the decoder calls the split kernel once per block before the block\'s points (checked by correspondence on all 11 types)']
-    projection = {'kinds': {'cloud', 'pkt', 'open', 'err', 'crash'}, 'ignore_ts': True, 'ignore_pkt_bytes': True, 'drop_points': True}
+    projection = {'kinds': {'cloud', 'pkt', 'open', 'crash'}, 'ignore_ts': True, 'ignore_pkt_bytes': True, 'drop_points': True}
 
     def kernel_class(self, k):
         _, _, s, p, a = k.split()
